@@ -159,6 +159,44 @@ theorem encodeMeshb_eq (v : Nat) (m : MeshFile) :
     encodeMeshb v m = (le32 1 ++ le32 v) ++ layout v (le32 1 ++ le32 v).length (sections v m) := by
   simp [encodeMeshb, le32_length]
 
+/-- header and jumps on any file `code, version, layout` (shared by .meshb and .solb) -/
+theorem layout_facts {cfg : Cfg} {v : Nat} {ss : List Sec} (hver : v = 2 ∨ v = 3 ∨ v = 4)
+    (hss : ∀ s ∈ ss, Sec.exact v s ∧ s.kw < 156) (hnd : (ss.map Sec.kw ++ [54]).Nodup)
+    (hfit : posFits v ((le32 1 ++ le32 v ++ layout v 8 ss).length : Int)) :
+    ∃ kp, header cfg (le32 1 ++ le32 v ++ layout v 8 ss) = .ok (v, kp) ∧
+      (∀ s ∈ ss, ∃ rest,
+        jump v (le32 1 ++ le32 v ++ layout v 8 ss) kp s.kw =
+          .ok (some ((((le32 1 ++ le32 v ++ layout v 8 ss).length - rest.length : Nat) : Int), s.body ++ rest)) ∧
+        rest.length + s.body.length ≤ (le32 1 ++ le32 v ++ layout v 8 ss).length) ∧
+      (∀ k, k ∉ ss.map Sec.kw ++ [54] → jump v (le32 1 ++ le32 v ++ layout v 8 ss) kp k = .ok none) := by
+  have hv : v < 2 ^ 31 := by rcases hver with rfl | rfl | rfl <;> norm_num
+  have h8 : (le32 1 ++ le32 v).length = 8 := by simp [le32_length]
+  have hfit' : posFits v (((le32 1 ++ le32 v).length +
+      (layout v (le32 1 ++ le32 v).length ss).length : Nat) : Int) := by
+    rw [h8]; rw [List.length_append, h8] at hfit; exact hfit
+  have hA : 0 < (le32 1 ++ le32 v).length := by omega
+  have hfuel : ss.length < (le32 1 ++ le32 v ++ layout v 8 ss).length + 1 := by
+    rw [List.length_append]
+    have := length_lt_layout v 8 ss
+    omega
+  obtain ⟨kp, hscan, hnone, hall⟩ := jump_present (cfg := cfg) hA hfuel hss hfit' hnd
+  rw [h8] at hscan hall
+  refine ⟨kp, ?_, hall, ?_⟩
+  · unfold header
+    rw [List.append_assoc, rdI32_le32 (by norm_num)]
+    dsimp only
+    rw [if_neg (by simp), rdI32_le32 hv]
+    dsimp only
+    rw [if_neg (by rcases hver with rfl | rfl | rfl <;> simp)]
+    rw [← List.append_assoc]
+    simp only [Int.toNat_natCast]
+    have : ((8 : Nat) : Int) = 8 := rfl
+    rw [this] at hscan
+    rw [hscan]
+  · intro k hk
+    unfold jump
+    rw [hnone k hk]
+
 /-- header and all jumps on an encoder output -/
 theorem file_facts {cfg : Cfg} {v : Nat} {m : MeshFile} (wf : WellFormed cfg v m) :
     ∃ kp, header cfg (encodeMeshb v m) = .ok (v, kp) ∧
@@ -167,44 +205,16 @@ theorem file_facts {cfg : Cfg} {v : Nat} {m : MeshFile} (wf : WellFormed cfg v m
           .ok (some ((((encodeMeshb v m).length - rest.length : Nat) : Int), e.2.body ++ rest)) ∧
         rest.length + e.2.body.length ≤ (encodeMeshb v m).length) ∧
       (∀ e ∈ master v m, e.1 = false → jump v (encodeMeshb v m) kp e.2.kw = .ok none) := by
-  have hv : v < 2 ^ 31 := by rcases wf.version with rfl | rfl | rfl <;> norm_num
   have hss : ∀ s ∈ sections v m, Sec.exact v s ∧ s.kw < 156 :=
     fun s hs => master_exact wf _ (sections_mem.1 hs)
-  have hfit : posFits v (((le32 1 ++ le32 v).length +
-      (layout v (le32 1 ++ le32 v).length (sections v m)).length : Nat) : Int) := by
-    have := wf.size_fits
-    rw [encodeMeshb_eq, List.length_append] at this
-    exact this
-  have hA : 0 < (le32 1 ++ le32 v).length := by simp [le32_length]
-  have hfuel : (sections v m).length < (encodeMeshb v m).length + 1 := by
-    rw [encodeMeshb_eq, List.length_append]
-    have := length_lt_layout v (le32 1 ++ le32 v).length (sections v m)
-    omega
-  have hdim : secDim v m ∈ sections v m := sections_mem.2 (by simp [master])
-  obtain ⟨kp, rest0, hscan, _, _, hnone, hall⟩ :=
-    jump_present (cfg := cfg) hA hfuel hss hfit (sections_kws_nodup wf) hdim
-  rw [← encodeMeshb_eq] at hscan hall
-  refine ⟨kp, ?_, ?_, ?_⟩
-  · unfold header
-    have e1 : encodeMeshb v m = le32 1 ++ (le32 v ++ layout v 8 (sections v m)) := by
-      simp [encodeMeshb]
-    rw [e1, rdI32_le32 (by norm_num)]
-    dsimp only
-    rw [if_neg (by simp), rdI32_le32 hv]
-    dsimp only
-    rw [if_neg (by rcases wf.version with rfl | rfl | rfl <;> simp)]
-    rw [← e1]
-    simp only [Int.toNat_natCast]
-    have h8 : ((le32 1 ++ le32 v).length : Int) = 8 := by simp [le32_length]
-    rw [h8] at hscan
-    rw [hscan]
+  obtain ⟨kp, hh, hall, hnone⟩ := layout_facts (cfg := cfg) wf.version hss (sections_kws_nodup wf) wf.size_fits
+  refine ⟨kp, hh, ?_, ?_⟩
   · intro e he hb
     obtain ⟨b, s⟩ := e
     simp only at hb; subst hb
     exact hall s (sections_mem.2 he)
   · intro e he hb
-    unfold jump
-    rw [hnone _ (absent_kw wf he hb)]
+    exact hnone _ (absent_kw wf he hb)
 
 theorem kwSection_absent {α : Type} {v : Nat} {bs : Bytes} {kp : KeyPos} {kw : Nat} {dflt : α}
     {body : Int → P α} (h : jump v bs kp kw = .ok none) : kwSection v bs kp kw dflt body = .ok dflt := by
